@@ -227,11 +227,14 @@ inline std::vector<LD> chol_solve(const std::vector<LD>& L, size_t n, const std:
 }
 // crude 2-norm condition estimate: power iteration for the largest, inverse iteration for the smallest eigenvalue
 inline LD cond_estimate(const std::vector<LD>& A, const std::vector<LD>& L, size_t n) {
-  std::vector<LD> v(n, 1.0L), w(n);
+  // start vectors without symmetry: (1,1,...,1) can be an exact eigenvector (of the SMALLEST eigenvalue for
+  // matrices like [[a,-a],[-a,a]]+delta*I), which made the first version of this estimate return 1
+  std::vector<LD> v(n), w(n);
+  for (size_t i = 0; i < n; i++) v[i] = ((i & 1) ? -1.0L : 1.0L) * (0.3L + (LD)((i * 2654435761ULL + 12345) % 97) / 97.0L);
   LD lmax = 0, lmin_inv = 0;
-  for (int it = 0; it < 60; it++) { for (size_t i = 0; i < n; i++) { LD s = 0; for (size_t j = 0; j < n; j++) s += A[i * n + j] * v[j]; w[i] = s; } LD nr = 0; for (LD x : w) nr += x * x; nr = sqrtl(nr); if (nr == 0) break; for (size_t i = 0; i < n; i++) v[i] = w[i] / nr; lmax = nr; }
-  v.assign(n, 1.0L); for (size_t i = 0; i < n; i++) v[i] += 0.01L * (LD)(i % 7);
-  for (int it = 0; it < 60; it++) { w = chol_solve(L, n, v); LD nr = 0; for (LD x : w) nr += x * x; nr = sqrtl(nr); if (nr == 0) break; for (size_t i = 0; i < n; i++) v[i] = w[i] / nr; lmin_inv = nr; }
+  for (int it = 0; it < 200; it++) { for (size_t i = 0; i < n; i++) { LD s = 0; for (size_t j = 0; j < n; j++) s += A[i * n + j] * v[j]; w[i] = s; } LD nr = 0; for (LD x : w) nr += x * x; nr = sqrtl(nr); if (nr == 0) break; for (size_t i = 0; i < n; i++) v[i] = w[i] / nr; lmax = nr; }
+  for (size_t i = 0; i < n; i++) v[i] = 1.0L + 0.61L * (LD)((i * 40503ULL + 7) % 13) / 13.0L + ((i % 3 == 1) ? -0.8L : 0.0L);
+  for (int it = 0; it < 100; it++) { w = chol_solve(L, n, v); LD nr = 0; for (LD x : w) nr += x * x; nr = sqrtl(nr); if (nr == 0) break; for (size_t i = 0; i < n; i++) v[i] = w[i] / nr; lmin_inv = nr; }
   return lmax * lmin_inv;
 }
 
